@@ -269,7 +269,7 @@ class PartitionSegment(BaseSegment):
                                     Sequence(
                                         Bracketed(
                                             Bracketed(Delimited(Ref("LiteralGrammar"))),
-                                            ",",
+                                            Ref("CommaSegment"),
                                             Bracketed(Delimited(Ref("LiteralGrammar"))),
                                         )
                                     ),
